@@ -151,3 +151,100 @@ Proof.
     apply andb_prop in E; destruct E as [E _]; apply Nat.eqb_eq in E; subst e0; cbn [e_stmt]; try exact Hs.
   rewrite (D2 e) in Hs by reflexivity. discriminate.
 Qed.
+
+(* ---- helper facts about one step ---- *)
+Definition stmt_noerr (s : state) : Prop :=
+  forall e st, e_stmt (ent s e) = Some st -> e_err (ent s e) = false.
+
+Lemma stmt_noerr_step s t th c s' l :
+  nth_error (s_thr s) t = Some th -> step_th s t th c = Some (s', l) -> invD s ->
+  stmt_noerr s -> stmt_noerr s'.
+Proof.
+  intros Ht H [DT _ _] SN e st.
+  pose proof (DT _ _ Ht) as D. cbv beta in D. destruct D as [_ [D2 [_ [_ [D5 _]]]]].
+  step_cases H.
+  all: autorewrite with st; try apply SN.
+  all: try (rewrite ent_w_ents_app; destruct (e =? length (s_ents s)); [cbn; discriminate | apply SN]).
+  all: rewrite ent_set_ent; autorewrite with st;
+    destruct ((e =? e0) && (e0 <? length (s_ents s))) eqn:E; [|apply SN];
+    apply andb_prop in E; destruct E as [E _]; apply Nat.eqb_eq in E; subst e0;
+    cbn [e_stmt e_err]; try apply SN.
+  - rewrite (D2 e) by reflexivity. discriminate.
+  - intros _. apply D5. reflexivity.
+Qed.
+
+Lemma step_thr_cases s t th c s' l t' th' :
+  nth_error (s_thr s) t = Some th -> step_th s t th c = Some (s', l) ->
+  nth_error (s_thr s') t' = Some th' ->
+  t' = t \/ (t' <> t /\ nth_error (s_thr s) t' = Some th') \/ (exists e, t_pc th' = C0 e) \/ (exists st, t_pc th' = D0 st).
+Proof.
+  intros Ht H. step_cases H.
+  all: autorewrite with st; norm_thr; intro Hn';
+    destruct (nth_error_app_upd _ _ _ _ _ _ _ Ht Hn') as [[-> _]|[[Hne Ho]|[Hi _]]]; auto.
+  all: try (destruct Hi; fail).
+  all: try (destruct Hi as [<-|[]]; right; right; right; eexists; reflexivity).
+  all: apply in_closers in Hi; destruct Hi as [p [_ ->]]; right; right; left; eexists; reflexivity.
+Qed.
+
+(* how the stepping goroutine can come to stand before / inside the driver's Prepare *)
+Lemma step_new_p9 s t th c s' l x e :
+  nth_error (s_thr s) t = Some th -> step_th s t th c = Some (s', l) ->
+  nth_error (s_thr s') t = Some x -> (t_pc x = P9 e \/ t_pc x = P9w e) ->
+  cur_tx x = cur_tx th /\
+  ((t_pc th = P9 e /\ t_pc x = P9w e) \/ (t_pc th = P6 /\ mlookup (s_map s') (cur_q th) = Some e)).
+Proof.
+  intros Ht H Hx Hp. step_cases H.
+  all: autorewrite with st in Hx; revert Hx; norm_thr; intro Hx;
+    rewrite (nth_error_app_upd_self _ _ _ _ _ Ht) in Hx; inversion Hx; subst x; clear Hx.
+  all: cbn [t_pc set_pc finish] in Hp; destruct Hp as [Hp|Hp]; try discriminate Hp; inversion Hp; subst.
+  all: split; [reflexivity|]; autorewrite with st.
+  all: try (left; split; reflexivity).
+  - right. split; [reflexivity|]. rewrite (mlookup_insert_hit _ _ _ _ _ Heqo), Nat.eqb_refl. reflexivity.
+  - right. split; [reflexivity|]. rewrite mlookup_insert_some, Nat.eqb_refl. reflexivity.
+Qed.
+
+Lemma step_prep_new s t th c s' l x :
+  nth_error (s_thr s) t = Some th -> step_th s t th c = Some (s', l) -> In x (s_prep s') ->
+  In x (s_prep s) \/
+  (exists e, t_pc th = P9w e /\ x = (s_nstmt s, cur_q th, cur_tx th)
+             /\ nth_error (s_thr s') t = Some (set_pc th (P10 e (s_nstmt s)))).
+Proof.
+  intros Ht H. step_cases H.
+  all: autorewrite with st; auto.
+  intro Hi. apply in_app_or in Hi. destruct Hi as [Hi|[<-|[]]]; [left; exact Hi|].
+  right. exists e. repeat split. eapply nth_error_upd_same; eauto.
+Qed.
+
+Lemma closing_step s t th c s' l st :
+  nth_error (s_thr s) t = Some th -> step_th s t th c = Some (s', l) -> closing s st -> closing s' st.
+Proof.
+  intros Ht H [Hm|[t1 [th1 [Hn1 Hp1]]]].
+  - left. eapply step_closed_mono; eauto.
+  - destruct (Nat.eq_dec t1 t) as [->|Hne].
+    + rewrite Ht in Hn1. inversion Hn1; subst th1. left.
+      unfold step_th in H. rewrite Hp1 in H. unfold a_D0 in H. destruct (is_tau c); [|discriminate].
+      inversion H; subst. autorewrite with st. apply memb_app_r.
+    + right. exact (has_thr_other _ _ _ _ _ _ _ t1 th1 Ht H Hne Hn1 Hp1).
+Qed.
+
+Definition carries (s : state) (e st : nat) : Prop :=
+  e_stmt (ent s e) = Some st \/ has_thr s (fun p => p = P10 e st \/ p = P10b e st).
+
+Lemma carries_step s t th c s' l e st :
+  nth_error (s_thr s) t = Some th -> step_th s t th c = Some (s', l) -> invC s -> invD s ->
+  carries s e st -> carries s' e st.
+Proof.
+  intros Ht H [V _] ID [Hs|[t1 [th1 [Hn1 Hp1]]]].
+  - left. eapply step_stmt_stable; eauto.
+  - destruct (Nat.eq_dec t1 t) as [->|Hne].
+    + rewrite Ht in Hn1. inversion Hn1; subst th1.
+      assert (Hl : e < length (s_ents s)) by (eapply (V _ _ Ht); destruct Hp1 as [->| ->]; reflexivity).
+      unfold step_th in H. destruct Hp1 as [Hp1|Hp1]; rewrite Hp1 in H.
+      * unfold a_P10 in H. destruct (is_tau c); [|discriminate]. destruct (lock_free s); [|discriminate].
+        inversion H; subst. right. exists t, (set_pc th (P10b e st)). autorewrite with st.
+        split; [eapply nth_error_upd_same; eauto | right; reflexivity].
+      * unfold a_P10b in H. destruct (is_tau c); [|discriminate]. cbv zeta in H.
+        inversion H; subst. left. autorewrite with st. rewrite ent_set_ent. autorewrite with st.
+        rewrite Nat.eqb_refl, (ltb_true _ _ Hl). reflexivity.
+    + right. exact (has_thr_other _ _ _ _ _ _ _ t1 th1 Ht H Hne Hn1 Hp1).
+Qed.
